@@ -1403,3 +1403,181 @@ Proof.
     { rewrite RR, reloaded_core by auto. exact C1. }
     rewrite (abs_vg_core [] k gk (reloaded g0) CC). reflexivity.
 Qed.
+
+(* ---- Vlone / VSlone ------------------------------------------------------------------------------------ *)
+Lemma lone_visits_spec : forall hg t f,
+  StronglySorted Z.lt (keys t) -> StronglySorted Z.lt (keys f) ->
+  (forall k g, In (k, g) t -> WFpack g /\ oref g = k /\ (marked g = true -> attached_in k hg = true) /\
+                              (marked g = false -> saved f k g)) ->
+  keys (snd (lone_visits hg f t)) = keys t /\
+  StronglySorted Z.lt (keys (fst (lone_visits hg f t))) /\
+  tmap (abs_vg hg) (snd (lone_visits hg f t)) = tmap (abs_vg hg) t /\
+  (forall k g1, In (k, g1) (snd (lone_visits hg f t)) ->
+     WFpack g1 /\ oref g1 = k /\ marked g1 = false /\ saved (fst (lone_visits hg f t)) k g1) /\
+  (forall k, ~ In k (keys t) -> tget k (fst (lone_visits hg f t)) = tget k f) /\
+  (forall k, tget k (fst (lone_visits hg f t)) <> None -> tget k f <> None \/ In k (keys t)).
+Proof.
+  induction t as [|[k g] t]; intros f St Sf H.
+  - cbn. split; [reflexivity|]. split; [exact Sf|]. split; [reflexivity|]. split; [intros k0 g1 []|].
+    split; [reflexivity|]. intros k0 N. left; exact N.
+  - cbn [keys map fst] in St. inversion St as [|? ? St' Fk]; subst.
+    destruct (H k g (or_introl eq_refl)) as (P & O & Mk & Sv).
+    cbn [lone_visits].
+    (* the visit of the head *)
+    assert (V : exists f1 g1, (if attached_in k hg then write_back f g else (f, set_first_attach g false)) = (f1, g1) /\
+                WFpack g1 /\ oref g1 = k /\ core g1 = core g /\ marked g1 = false /\
+                (attached_in k hg = true -> access g1 = access g) /\
+                StronglySorted Z.lt (keys f1) /\ saved f1 k g1 /\
+                (forall k', k' <> k -> tget k' f1 = tget k' f) /\ tget k f1 <> None).
+    { destruct (attached_in k hg) eqn:At.
+      - pose proof (write_back_spec f g k P O Sf Sv) as WB. destruct (write_back f g) as [f1 g1].
+        destruct WB as (P1 & O1 & C1 & A1 & M1 & S1 & Sv1 & Fo & Fr). exists f1, g1. auto 12.
+      - assert (Mg : marked g = false) by (destruct (marked g); auto; specialize (Mk eq_refl); discriminate).
+        specialize (Sv Mg). exists f, (set_first_attach g false).
+        split; [reflexivity|]. split; [apply WFpack_access; auto|]. split; [exact O|]. split; [reflexivity|].
+        split; [reflexivity|]. split; [intro; discriminate|]. split; [exact Sf|].
+        split; [apply (saved_core f k g); auto|]. split; [reflexivity|].
+        destruct Sv as (g0 & _ & _ & T & _). rewrite T. discriminate. }
+    destruct V as (f1 & g1 & EV & P1 & O1 & C1 & M1 & A1 & S1 & Sv1 & Fo & Fr). rewrite EV.
+    assert (Hk : forall k' g', In (k', g') t -> k < k').
+    { intros k' g' I. rewrite Forall_forall in Fk. apply Fk. apply (in_map fst) in I. exact I. }
+    destruct (IHt f1 St' S1) as (K' & Sf' & Ab' & En' & Fo' & Fr').
+    { intros k' g' I. destruct (H k' g' (or_intror I)) as (P' & O' & Mk' & Sv').
+      split; [exact P'|split; [exact O'|split; [exact Mk'|]]]. intro Mg'.
+      destruct (Sv' Mg') as (g0 & P0 & O0 & T0 & C0). exists g0.
+      split; [exact P0|split; [exact O0|split; [|exact C0]]]. rewrite Fo; auto. specialize (Hk k' g' I). lia. }
+    destruct (lone_visits hg f1 t) as [f2 t2]. cbn [fst snd] in *.
+    assert (Nk : ~ In k (keys t)).
+    { intro I. rewrite Forall_forall in Fk. specialize (Fk k I). lia. }
+    split; [cbn [keys map fst]; unfold keys in *; rewrite K'; reflexivity|].
+    split; [exact Sf'|]. split; [|split; [|split]].
+    + cbn [tmap map fst snd]. f_equal; [|exact Ab'].
+      f_equal. rewrite (abs_vg_core hg k g g1 C1). unfold set_w, abs_vg. cbn [g_name g_class g_members].
+      destruct (attached_in k hg) eqn:At; cbn [andb]; [rewrite A1 by auto|]; reflexivity.
+    + intros k' g' [I|I].
+      * injection I as I1 I2. subst k' g'. split; [exact P1|split; [exact O1|split; [exact M1|]]].
+        destruct Sv1 as (g0 & P0 & O0 & T0 & C0). exists g0.
+        split; [exact P0|split; [exact O0|split; [|exact C0]]]. rewrite Fo'; auto.
+      * apply En'; auto.
+    + intros k' N. cbn [keys map fst In] in N. rewrite Fo' by tauto. apply Fo. intro; subst. apply N. left; reflexivity.
+    + intros k' N. cbn [keys map fst In]. destruct (Z.eq_dec k' k); [right; left; auto|].
+      destruct (Fr' k' N) as [N1|N1]; [|right; right; exact N1]. left. rewrite <- Fo by auto. exact N1.
+Qed.
+
+Lemma lone_effect : forall m, Inv m -> Inv (lone_side_effect m) /\ abs_state (lone_side_effect m) = abs_state m.
+Proof.
+  intros m I. unfold lone_side_effect.
+  destruct (lone_visits_spec (m_hg m) (m_vg m) (m_file m) (i_sg m I) (i_sf m I)) as (K & Sf & Ab & En & Fo & Fr).
+  { intros k g Hin. apply tget_sorted_in in Hin; [|apply I]. destruct (i_vg m I k g Hin) as [P O].
+    split; [exact P|split; [exact O|split; [apply (i_mk m I k g Hin)|apply (i_sv m I k g Hin)]]]. }
+  destruct (lone_visits (m_hg m) (m_file m) (m_vg m)) as [f t]. cbn [fst snd] in *.
+  assert (TG : forall k, tget k t <> None <-> tget k (m_vg m) <> None).
+  { intro k. split; intros N E; apply tget_none_notin in E; apply N; apply tget_none_notin; congruence. }
+  split.
+  - constructor; cbn [m_vg m_vs m_file m_hg m_hs]; try apply I; try (rewrite K; apply I); auto.
+    + intros k g1 E. apply tget_In in E. destruct (En k g1 E) as (P1 & O1 & _). auto.
+    + intros k g1 E Mk. apply tget_In in E. destruct (En k g1 E) as (_ & _ & M1 & _). congruence.
+    + intros k g1 E Mk. apply tget_In in E. destruct (En k g1 E) as (_ & _ & _ & S1). exact S1.
+    + intros k N. apply TG. destruct (Fr k N) as [N1|N1]; [apply (i_fs m I); auto|].
+      intro E. apply tget_none_notin in E. contradiction.
+    + intros h r Hin. apply TG. eapply (i_hg m I); eauto.
+  - unfold abs_state. cbn [m_vg m_vs m_hg m_hs]. f_equal. exact Ab.
+Qed.
+
+Lemma Inv_refs_ok : forall m, Inv m -> forall k g, In (k, g) (m_vg m) -> WF g /\ refs_ok g.
+Proof.
+  intros m I k g Hin. apply tget_sorted_in in Hin; [|apply I]. destruct (i_vg m I k g Hin) as [P _].
+  split; [apply P|]. unfold refs_ok. eapply Forall_impl; [|apply (wp_mem g P)].
+  intros p [_ [A _]]. exact A.
+Qed.
+
+Lemma sim_lone : forall m n, Inv m -> sim_step m (OLone n).
+Proof.
+  intros m n I. destruct (Inv_tables m I) as (_ & _ & _ & _ & TG & TS).
+  unfold sim_step. cbn [mstep step]. destruct (n <? 0); [left; reflexivity|].
+  destruct (lone_effect m I) as [I' A']. destruct (lone_correct_lemma m TG TS (Inv_refs_ok m I)) as [L1 L2].
+  right. cbn [fst snd]. split; [exact I'|split; [exact A'|right; rewrite L1; reflexivity]].
+Qed.
+
+Lemma sim_vslone : forall m n, Inv m -> sim_step m (OVSLone n).
+Proof.
+  intros m n I. destruct (Inv_tables m I) as (_ & _ & _ & _ & TG & TS).
+  unfold sim_step. cbn [mstep step]. destruct (n <? 0); [left; reflexivity|].
+  destruct (lone_effect m I) as [I' A']. destruct (lone_correct_lemma m TG TS (Inv_refs_ok m I)) as [L1 L2].
+  right. cbn [fst snd]. split; [exact I'|split; [exact A'|right; rewrite L2; reflexivity]].
+Qed.
+
+(* ================================================================================================== *)
+(** * Every operation, every history *)
+
+Lemma step_sim : forall m o, Inv m -> sim_step m o.
+Proof.
+  intros m o I. destruct o.
+  - apply sim_open; auto.
+  - apply sim_reopen; auto.
+  - apply sim_vgnew; auto.
+  - apply sim_vgattach; auto.
+  - apply sim_vgdetach; auto.
+  - apply sim_setname; auto.
+  - apply sim_setclass; auto.
+  - apply sim_addtagref; auto.
+  - apply sim_addmany; auto.
+  - apply sim_insertvg; auto.
+  - apply sim_insertvs; auto.
+  - apply sim_deltagref; auto.
+  - apply sim_vdelete; auto.
+  - apply sim_vsdelete; auto.
+  - apply sim_vsnew; auto.
+  - apply sim_vsattach; auto.
+  - apply sim_vsdetach; auto.
+  - apply sim_ntagrefs; auto.
+  - apply sim_gettagrefs; auto.
+  - apply sim_gettagref; auto.
+  - apply sim_inqtagref; auto.
+  - apply sim_nrefs; auto.
+  - apply sim_getname; auto.
+  - apply sim_getclass; auto.
+  - apply sim_inquire; auto.
+  - apply sim_queryref; auto.
+  - apply sim_isvg; auto.
+  - apply sim_isvs; auto.
+  - apply sim_lone; auto.
+  - apply sim_vslone; auto.
+  - apply sim_getid; auto.
+  - apply sim_vsgetid; auto.
+  - apply sim_iter; auto.
+  - apply sim_vsiter; auto.
+  - apply sim_find; auto.
+  - apply sim_findclass; auto.
+  - apply sim_vsfind; auto.
+  - apply sim_vsfindclass; auto.
+  - apply sim_getvgroupsf; auto.
+  - apply sim_getvgroupsg; auto.
+  - apply sim_getnext; auto.
+  - apply sim_msize; auto.
+  - apply sim_rawvg; auto.
+  - apply sim_putraw; auto.
+Qed.
+
+(** the results of a whole history, on the specification and on the model *)
+Fixpoint s_trace (s : state) (ops : list op) : list res :=
+  match ops with [] => [] | o :: r => snd (step s o) :: s_trace (fst (step s o)) r end.
+Fixpoint m_trace (m : mstate) (ops : list op) : list res :=
+  match ops with [] => [] | o :: r => snd (mstep m o) :: m_trace (fst (mstep m o)) r end.
+(** agreement up to the first operation outside the property's domain; [RNoSpec] results are not compared *)
+Fixpoint traces_agree (rs rm : list res) : Prop :=
+  match rs, rm with
+  | [], [] => True
+  | RUnspec :: _, _ :: _ => True
+  | x :: rs', y :: rm' => res_agree x y /\ traces_agree rs' rm'
+  | _, _ => False
+  end.
+
+Lemma graph_refines_from : forall ops m, Inv m -> traces_agree (s_trace (abs_state m) ops) (m_trace m ops).
+Proof.
+  induction ops as [|o ops]; intros m I; cbn [s_trace m_trace traces_agree]; auto.
+  destruct (step_sim m o I) as [U|(I' & A' & R')].
+  - rewrite U. exact Logic.I.
+  - destruct (snd (step (abs_state m) o)) eqn:E; try exact Logic.I;
+      (split; [exact R'|rewrite <- A'; apply IHops; exact I']).
+Qed.
